@@ -433,11 +433,6 @@ func (s *static) edit(w *World, last bool) {
 		s.request(w)
 	}
 	style := t.Draw(6)
-	// known-finding trigger: styles that replace the watched inode lose the watch. Without the switch only an
-	// atomic rename-over is generated, and only as the last update (its own events still arrive).
-	if style >= 3 && !w.O.Known && !(style == 3 && last) {
-		style = t.Draw(3)
-	}
 	if s.watchKilled[p] {
 		s.editsAfterKill[p]++
 	}
